@@ -388,7 +388,8 @@ def requests_after_accept(repo: Repo, chk: Check) -> None:
                         continue
                     ack = m.args[1]
                     ackdef = rd.single_def(unparse(ack), m) if isinstance(ack, ast.Name) else None
-                    bc = call_of(ackdef.value) if ackdef is not None and ackdef.value is not None else None
+                    # the ack is a local holding the bind() result, or the bind() call written in place
+                    bc = call_of(ackdef.value) if ackdef is not None and ackdef.value is not None else (call_of(ack) if not isinstance(ack, ast.Name) else None)
                     if not bc or not bc[0].endswith(".bind") or unparse(t.cast(ast.Attribute, bc[3].func).value) != rpc:
                         continue
                     # same connection object: the rpc name must not be rebound between bind and request
